@@ -289,8 +289,13 @@ def _stmt_end(text, start):
     raise Undecided("statement end not found after anchor")
 
 
+LOST = {}  # fn label -> [lost anchors] for the unit being built
+
+
 def splice_fn(text, spec, fname):
-    """Apply return naming, spec clauses and ghost insertions to one extracted fn item."""
+    """Apply return naming, spec clauses and ghost insertions to one extracted fn item. A ghost block
+    whose anchor statement no longer exists is skipped and recorded: the function is then checked
+    without that hint (discharged if the solver manages anyway, otherwise undecided - never refuted)."""
     text = strip_comments(text)
     toks = code_tokens(text)
     # signature end = first '{' at paren depth 0
@@ -321,10 +326,15 @@ def splice_fn(text, spec, fname):
             continue
         anchor, occ = g["anchor"], g.get("occ", 1)
         idx = -1
+        lost = False
         for _ in range(occ):
             idx = body.find(anchor, idx + 1)
             if idx < 0:
-                raise Undecided(f"anchor-lost: {fname}: statement `{anchor}` (occurrence {occ})")
+                lost = True
+                break
+        if lost:
+            LOST.setdefault(fname, []).append(f"`{anchor}` (occurrence {occ})")
+            continue
         ins = f"{MARK_IN}\n{g['text'].strip()}\n{MARK_OUT}\n"
         if g["at"] == "before":
             ls = body.rfind("\n", 0, idx) + 1
@@ -385,6 +395,7 @@ def load_unit(name):
 def build_file(U, root=REPO):
     """Returns (file text, ranges [(first_line, last_line, fn label, obligation id)], report)."""
     ex = Extractor(root)
+    LOST.clear()
     parts = ["use vstd::prelude::*;\nverus! {\n", U.get("prelude", "")]
     regions = []  # (text_index, text, label, ob)
     report = []
@@ -568,6 +579,10 @@ def run_unit(name, pid, root=REPO, keep=None):
         e = per.get((label, ob))
         if summary is None or to:
             o["outcome"] = "undecided"
+        elif e and label in LOST:
+            o["outcome"] = "undecided"
+            o["detail"] = "anchor-lost: proof hints could not be placed at " + ", ".join(LOST[label])
+            R.undecided.append(f"{label}: anchor-lost {', '.join(LOST[label])}")
         elif e:
             # Z3's resource limit is a deterministic count (not wall time): an obligation that is
             # discharged on the unchanged tree and exhausts the limit after a change to the function
